@@ -204,9 +204,15 @@ func c08bRun(t *testing.T, r *vreport.Report, c c08bCase) {
 	}
 	// ---- step 0: first wave (optionally with the poll overlapping the burst that opens the gap)
 	switch c.Hook {
-	case "burst-before-high", "burst-after-high":
-		// the client has caught up with sequence 1 and polls again; during that poll's read of the cache's high
-		// sequence the rest of the first wave arrives and the gap is skipped
+	case "burst-before-high", "burst-after-high", "burst-before-high@2", "burst-after-high@2", "burst-before-high@3", "burst-after-high@3":
+		// the client has caught up with sequence 1 and polls again; during that poll's k-th read of the cache's high
+		// sequence the rest of the first wave arrives and the gap is skipped (if the poll makes fewer reads, the burst
+		// arrives after the poll)
+		k := 1
+		if i := strings.Index(c.Hook, "@"); i > 0 {
+			k = int(c.Hook[i+1] - '0')
+		}
+		wantBefore := strings.HasPrefix(c.Hook, "burst-before-high")
 		WriteDirect(t, coll, []string{"ABC"}, 1)
 		if err := w.waitHigh(1); err != nil {
 			stalled("first document")
@@ -214,12 +220,8 @@ func c08bRun(t *testing.T, r *vreport.Report, c c08bCase) {
 		}
 		pollNow("poll-0")
 		fired := false
-		wrapper.mu.Lock()
-		wrapper.onHighSeq = func(before bool) {
-			if fired || before != (c.Hook == "burst-before-high") {
-				return
-			}
-			fired = true
+		calls := 0
+		burst := func() {
 			last := 0
 			for s := 2; s <= c.N; s++ {
 				if !delayed[s] {
@@ -229,12 +231,33 @@ func c08bRun(t *testing.T, r *vreport.Report, c c08bCase) {
 			}
 			_ = w.waitHigh(uint64(last))
 		}
+		wrapper.mu.Lock()
+		wrapper.onHighSeq = func(before bool) {
+			if before {
+				calls++
+			}
+			if fired || calls != k || before != wantBefore {
+				return
+			}
+			fired = true
+			burst()
+		}
 		wrapper.mu.Unlock()
 		pollNow("poll-overlapping-the-burst")
 		wrapper.mu.Lock()
 		wrapper.onHighSeq = nil
 		wrapper.mu.Unlock()
-		if err := w.waitHigh(uint64(c.N)); err != nil && !delayed[c.N] {
+		if !fired {
+			r.Add("burst_hook_not_reached", 1)
+			burst()
+		}
+		lastWave := 0
+		for s := 2; s <= c.N; s++ {
+			if !delayed[s] {
+				lastWave = s
+			}
+		}
+		if err := w.waitHigh(uint64(lastWave)); err != nil {
 			stalled("first wave")
 			return
 		}
@@ -393,7 +416,7 @@ func c08bRun(t *testing.T, r *vreport.Report, c c08bCase) {
 func TestVerifC08Client(t *testing.T) {
 	r := vreport.Begin("C08")
 	defer r.Finish(t)
-	r.Rule("(b) documents 1..N in the client's channel arrive through the real mutation feed with every non-empty set of up to 2 delayed sequences out of {2,3,4} (skipped after the pending wait, arriving late in every order); a client polls with one-shot requests after every subset of the steps {first wave, each late arrival} and finally until it is handed nothing twice, always resuming from the position it was handed; variants: the first late arrival is processed while a poll runs (poll placed before / after the arrival's AddToCache), the gap-opening burst arrives during a poll's read of the cache's high sequence (before / after the read), the client is parked in a long-poll request when the first late arrival comes; non-trivial = distinct case")
+	r.Rule("(b) documents 1..N in the client's channel arrive through the real mutation feed with every non-empty set of up to 2 delayed sequences out of {2,3,4} (skipped after the pending wait, arriving late in every order); a client polls with one-shot requests after every subset of the steps {first wave, each late arrival} and finally until it is handed nothing twice, always resuming from the position it was handed; variants: the first late arrival is processed while a poll runs (poll placed before / after the arrival's AddToCache), the gap-opening burst arrives during a poll's first, second or third read of the cache's high sequence (before / after the read), the client is parked in a long-poll request when the first late arrival comes; non-trivial = distinct case")
 	r.Assume("overlaps are enumerated at the granularity of the channel-cache interface calls (AddToCache, GetHighCacheSequence), not at every lock operation; the pending-sequence wait is 5 ms so that gaps are skipped quickly; waits are on observable cache state with a 20 s horizon after which the scenario is abandoned (cap), never judged")
 	var rc c08bCase
 	if r.Replaying(&rc) {
@@ -414,7 +437,7 @@ func TestVerifC08Client(t *testing.T) {
 	idx := 0
 	for _, ds := range delaySets {
 		steps := 1 + len(ds)
-		for _, hook := range []string{"", "late-before-add", "late-after-add", "burst-before-high", "burst-after-high", "longpoll"} {
+		for _, hook := range []string{"", "late-before-add", "late-after-add", "burst-before-high", "burst-after-high", "burst-before-high@2", "burst-after-high@2", "burst-before-high@3", "longpoll"} {
 			for polls := 0; polls < 1<<steps; polls++ {
 				if hook == "longpoll" && polls&1 == 0 {
 					continue // the parked request resumes from a position handed out after the gap opened
